@@ -145,6 +145,38 @@ mod r#mod {
     #[repr(u8)]
     pub enum r#enum { r#struct = 7, r#use(u8) }
 }
+// documentation that ENDS with blank lines (type, member, variant), derived and hand-written
+mod trailing {
+    /// ends with blank lines
+    ///
+    ///
+    #[derive(scale_info::TypeInfo)]
+    #[scale_info(capture_docs = "always")]
+    pub struct St {
+        /// member
+        ///
+        pub a: u8,
+    }
+    /// an enum
+    ///
+    #[derive(scale_info::TypeInfo)]
+    #[scale_info(capture_docs = "always")]
+    pub enum En {
+        /// fieldless, documented
+        ///
+        A,
+        /// fieldless too
+        B,
+    }
+}
+struct HandBlank;
+impl TypeInfo for HandBlank {
+    type Identity = Self;
+    fn type_info() -> scale_info::Type {
+        scale_info::Type::builder().path(scale_info::Path::new("HandBlank", "fp")).docs_always(&["text", "", ""])
+            .variant(scale_info::build::Variants::new().variant("A", |v| v.index(0).docs_always(&["", ""])).variant("B", |v| v.index(1).docs_always(&["b", ""])))
+    }
+}
 struct HandStrings;
 impl TypeInfo for HandStrings {
     type Identity = Self;
@@ -201,6 +233,7 @@ fn base_corpus() -> Vec<MetaType> {
         meta_type::<BTreeMap<String, Vec<(u8, Option<E>)>>>(), meta_type::<scale::Compact<()>>(), meta_type::<core::num::NonZeroI128>(),
         meta_type::<(u8, u8, u8, u8, u8, u8, u8, u8, u8, u8, u8, u8, u8, u8, u8, u8, u8, u8, u8, u8)>(),
         meta_type::<r#async::r#type>(), meta_type::<r#async::Plain>(), meta_type::<r#mod::r#enum>(), meta_type::<HandStrings>(),
+        meta_type::<trailing::St>(), meta_type::<trailing::En>(), meta_type::<HandBlank>(),
     ]
 }
 fn hex(b: &[u8]) -> String {
